@@ -86,6 +86,21 @@ def build_jobs(prop, tier, seed, do, monitors, streams=None, want=None, monitor_
             jobs.append(Job("framework.props.models", "run_models", task,
                             mode="jit" if (jit_share > 0 and j % 2 == 1) else "interp",
                             timeout=300 if q else 1800, tag="views:%d" % j, stall_s=60 if q else 120))
+    # large constraints, small search: planted models of 8-40 variables / arity <= 14 with all but 2-5 domains fixed - every
+    # brute-force oracle and every plane-A monitor of the check applies to them unchanged
+    for j in range(2 if q else 4):
+        task = {
+            "props": want, "seed": seed * 409 + j * 3 + 4, "count": per_job,
+            "gen": {"source": "large_constraints_small_search", "max_vars": 14 if j % 2 == 0 else 24},
+            "configs": "random", "configs_per_model": 2, "cost": False, "monitors": monitors,
+            "monitor_opts": monitor_opts or {}, "do": do, "orders": 0, "objectives_per_model": 1,
+            "max_points": 3000, "deadline_s": 50 if q else 900, "stream": "large_constraints_small_search",
+        }
+        if task_extra:
+            task.update(task_extra)
+        jobs.append(Job("framework.props.models", "run_models", task,
+                        mode="jit" if (jit_share > 0 and j % 2 == 1) else "interp",
+                        timeout=300 if q else 1800, tag="largesmall:%d" % j, stall_s=90 if q else 180))
     # focus stream: models on which shaving actually shaves (probes refuted where bound consistency alone is stuck:
     # parity of linear equalities, pigeonholes) surrounded by one-directional constraints
     if "fixpoint" in monitors or "shaving" in monitors:
